@@ -23,11 +23,11 @@ Definition trap_motion (vm p0 p1 v0 : R) (c : trapR) (t : R) : Prop :=
   (forall x, 0 < x < t -> is_derive (trap_pos R_ops c) x (trap_vel R_ops c x)).
 
 Theorem trap_gen_motion c0 vm ac de p0 p1 v0 v1 :
-  vm <> 0 -> trap_feasible ac de p0 p1 ->
+  trap_feasible ac de p0 p1 ->
   let '(c, t, b) := trap_gen_b R_ops c0 vm ac de p0 p1 v0 v1 in
   0 < t -> trap_motion vm p0 p1 v0 c t /\ (b = TB_cruise \/ b = TB_accdec -> t_v1 c = clampR v1 vm).
 Proof.
-  intros Hvm Hf. pose proof (trap_gen_wf c0 vm ac de p0 p1 v0 v1 Hvm Hf) as H.
+  intros Hf. pose proof (trap_gen_wf c0 vm ac de p0 p1 v0 v1 Hf) as H.
   destruct (trap_gen_b R_ops c0 vm ac de p0 p1 v0 v1) as [[c t] b]. unfold trap_gen_post in H.
   intros Ht. destruct (H Ht) as (WF & Et & E0 & E1 & Ev0 & _ & _ & Ev1 & _ & _).
   split; [|exact Ev1]. unfold trap_motion. rewrite Et.
@@ -59,11 +59,11 @@ Definition bell_motion (jm am vm p0 p1 v0 v1 : R) (c : bellR) (t : R) : Prop :=
   (forall k x, (1 <= k <= 7)%nat -> bnd c (k - 1) < x < bnd c k -> is_derive (bell_acc R_ops c) x (bell_jer R_ops c x)).
 
 Theorem bell_gen_motion fuel c0 jm am vm p0 p1 v0 v1 :
-  jm <> 0 -> am <> 0 -> vm <> 0 -> bell_feasible jm am vm p0 p1 v0 v1 ->
+  bell_feasible jm am vm p0 p1 v0 v1 ->
   let '(c, t, k, n) := bell_gen_b R_ops fuel c0 jm am vm p0 p1 v0 v1 in
   0 < t -> bell_motion jm am vm p0 p1 v0 v1 c t.
 Proof.
-  intros Hjm Ham Hvm Hf. pose proof (bell_gen_wf fuel c0 jm am vm p0 p1 v0 v1 Hjm Ham Hvm) as H.
+  intros Hf. pose proof (bell_gen_wf fuel c0 jm am vm p0 p1 v0 v1) as H.
   destruct (bell_gen_b R_ops fuel c0 jm am vm p0 p1 v0 v1) as [[[c t] k] n]. unfold bell_gen_post in H.
   intros Ht. destruct (H Ht) as (Et & E0 & E1 & Ev0 & Ev1 & Ej & WF & L0 & L1 & Lm & La).
   destruct (La (or_intror Hf)) as [La1 La2].
